@@ -75,6 +75,10 @@ class Check:
         self.rejections.append({"key": key, "replay": replay, "what": what})
 
     def finish(self) -> int:
+        d0 = REPLAYS / self.prop
+        if d0.exists():
+            for old in d0.glob("*.json"):
+                old.unlink()
         known = load_known()
         reproduced: dict[str, dict] = {}
         absorbed: dict[str, int] = {}
@@ -91,10 +95,12 @@ class Check:
                   f"[{absorbed[fid]} rejection(s)]")
         if violations:
             summary: dict[str, int] = {}
+            example: dict[str, str] = {}
             for r in violations:
                 summary[canon(r["key"])] = summary.get(canon(r["key"]), 0) + 1
+                example.setdefault(canon(r["key"]), r["what"])
             for kk, n in sorted(summary.items())[:200]:
-                log(f"  unexplained x{n}: {kk}")
+                log(f"  unexplained x{n}: {kk}  e.g. {example[kk][:300]}")
         seen = set()
         nviol = 0
         for r in violations:
